@@ -175,10 +175,28 @@ def check(ctx):
                     allow = "documented opt-in ($XONSH_BUILTINS_TO_CMD gated `cmd -flag` heuristic)"
                 if isinstance(e2, ast.Call) and call_name(e2) == "isinstance" and pol and len(e2.args) == 2 and unparse(e2.args[1]) == "BinOp" and name == "visit_Assign":
                     allow = "assignment to a BinOp target is not valid Python"
+            if not ok:
+                # shape-independent decision: with "the node is in scope" true and the two documented opt-outs
+                # false, some dominating guard must be violated (three-valued evaluation; unknown atoms stay unknown)
+                a2 = unparse(df.resolve_copy(defs, arg)) if arg is not None else None
+
+                def atoms(e, a2=a2, arg=arg):
+                    e2 = df.resolve_copy(defs, e)
+                    if isinstance(e2, ast.Call) and call_name(e2) == "self.is_in_scope" and e2.args and (unparse(df.resolve_copy(defs, e2.args[0])) == a2 or unparse(e2.args[0]) == unparse(arg)):
+                        return True
+                    if isinstance(e2, ast.Call) and call_name(e2) == "self._looks_like_flag_subproc":
+                        return False
+                    if isinstance(e2, ast.Call) and call_name(e2) == "isinstance" and len(e2.args) == 2 and unparse(e2.args[1]) == "BinOp" and name == "visit_Assign":
+                        return False
+                    return None
+
+                ok = any(ev3(t, atoms) is (not pol) for t, pol in cfg.guards(node))
+                if ok and allow:
+                    allow = None  # reachable only out of scope or through a documented opt-out: plain obligation
             if allow and not ok:
                 ctx.ob("R2", st, f"`{short(c, 50)}` allow-listed: {allow}", True, where=loc(c))
             else:
-                ctx.ob("R2", st, f"`{short(c, 50)}` runs only if `not self.is_in_scope({unparse(arg)})`", ok, key=f"{name}|unguarded-subproc|{unparse(arg)}", where=loc(c), detail="facts: " + "; ".join(facts_text(facts)))
+                ctx.ob("R2", st, f"`{short(c, 50)}` runs only if `not self.is_in_scope({unparse(arg)})` (or through a documented opt-out)", ok, key=f"{name}|unguarded-subproc|{unparse(arg)}", where=loc(c), detail="facts: " + "; ".join(facts_text(facts)))
     if n_calls < 5:
         raise AnalysisError(f"only {n_calls} try_subproc_toks call sites found in the transformer")
     # the opt-in heuristic really is gated on the environment switch
